@@ -3,6 +3,7 @@
 package c20suite
 
 import (
+	"bytes"
 	"errors"
 	"fmt"
 	"io"
@@ -54,6 +55,11 @@ var Deviants = []string{
 	// the correct *PathError wrapped in another error type; io.EOF wrapped in a *PathError on a ReadAt that fills the buffer
 	"Mkdir:wrapped-patherror", "Open:wrapped-patherror", "OpenFile:wrapped-patherror", "Remove:wrapped-patherror", "Stat:wrapped-patherror", "Chmod:wrapped-patherror", "Chtimes:wrapped-patherror",
 	"ReadAt:wrapped-eof-on-full-read",
+	// Name() of an info is the whole path the file was addressed by (visible for nested files only); a positional write
+	// beyond the end leaves stale bytes in the gap; a complete handle listing (n <= 0) names every entry twice
+	"Stat:name-full-path", "FileStat:name-full-path", "WriteAt:gap-garbage", "ReadDir:all-twice",
+	// (the same on a file system that lists correctly by name: only the handle's complete listing is wrong)
+	"FSReadDir:handle-lists-all-twice",
 	"Rename:fails-eopnotsupp", "Rename:cross-dir-fails-enotsup", "Mkdir:fails-eopnotsupp", "MkdirAll:fails-enotsup", "Remove:fails-eopnotsupp", "Chmod:fails-enotsup", "Chtimes:fails-eopnotsupp", "OpenFile:create-fails-eopnotsupp",
 }
 
@@ -496,6 +502,9 @@ func (d *DevFS) Stat(name string) (hackpadfs.FileInfo, error) {
 	case d.is("Stat:wrong-name"):
 		d.fire()
 		return devInfo{FileInfo: info, name: info.Name() + "~"}, nil
+	case d.is("Stat:name-full-path") && strings.Contains(name, "/"):
+		d.fire()
+		return devInfo{FileInfo: info, name: name}, nil
 	}
 	return info, nil
 }
@@ -589,6 +598,9 @@ func (f *devFile) Stat() (hackpadfs.FileInfo, error) {
 		d.fire()
 		m := info.Mode() ^ 0o040
 		return devInfo{FileInfo: info, mode: &m}, nil
+	case d.is("FileStat:name-full-path") && strings.Contains(f.name, "/"):
+		d.fire()
+		return devInfo{FileInfo: info, name: f.name}, nil
 	}
 	return info, nil
 }
@@ -691,6 +703,9 @@ func (f *devFile) ReadDir(n int) ([]hackpadfs.DirEntry, error) {
 	case d.is("ReadDir:duplicate-entry") && len(entries) > 0:
 		d.fire()
 		entries = append(entries, entries[0])
+	case (d.is("ReadDir:all-twice") || d.is("FSReadDir:handle-lists-all-twice")) && n <= 0 && len(entries) > 0:
+		d.fire()
+		entries = append(entries, entries...)
 	case d.is("Rename:dest-listed-twice-in-subdir") || d.is("Mkdir:listed-twice-in-subdir"):
 		if base, ok := d.twice.Load(f.name); ok {
 			for _, e := range entries {
@@ -868,6 +883,17 @@ func (f *devFile) writeAt(p []byte, off int64) (int, error) {
 				_, _ = s.Seek(off+int64(n), io.SeekStart)
 			}
 			return n, err
+		}
+	}
+	if d.is("WriteAt:gap-garbage") && len(p) > 0 {
+		if info, err := f.f.Stat(); err == nil && off > info.Size() {
+			size := info.Size() // (the info may be a live view of the file: read the size before writing)
+			n, werr := hackpadfs.WriteAtFile(f.f, p, off)
+			if werr == nil {
+				d.fire()
+				_, _ = hackpadfs.WriteAtFile(f.f, bytes.Repeat([]byte{0xAA}, int(off-size)), size) // what "was there" instead of zeros
+			}
+			return n, werr
 		}
 	}
 	return hackpadfs.WriteAtFile(f.f, p, off)
